@@ -1,9 +1,10 @@
 #!/usr/bin/env python3
 """Verify a sub-agent's seeded change in its scratch worktree and adopt it under /verif/seeded/.
 
-usage: adopt_seed.py <PROP> <worktree> <k> [--needs "text"]
+usage: adopt_seed.py <PROP> <worktree> <k> [--as <n>]
 Checks: patch applies to the worktree's HEAD; the unedited test suite passes with it; the demo exits 1 with the
-patch and 0 without; then applies the patch to /repo, runs every check, records which raise a violation, reverts.
+patch and 0 without; then copies the artefacts to /verif/seeded/<PROP>-<n> and lets tools/recheck_seeds.py apply the
+patch to a private copy of /repo's HEAD, run every check and record which raise a violation.  /repo is never touched.
 """
 import json, os, re, shutil, subprocess, sys
 
@@ -38,41 +39,10 @@ def main():
     if not ok:
         print("NOT ADOPTED: verification failed")
         return 1
-    # which checks catch it
-    assert sh("git status --short", "/repo")[1].strip() == "", "/repo not clean"
+    # which checks catch it: decided on a private copy of /repo's HEAD (tools/recheck_seeds.py), /repo is never touched
+    name = sys.argv[sys.argv.index("--as") + 1] if "--as" in sys.argv else k
     caught, details = [], {}
-    applied = False
-    for opt in ("", "--3way", "-C1"):
-        if sh(f"git apply --whitespace=nowarn {opt} {patch}", "/repo")[0] == 0:
-            applied = True
-            break
-        sh("git checkout -- . && git reset -q", "/repo")
-    if not applied:
-        print("NOT RE-CHECKED: the patch no longer applies to the current tree (the code it edits was repaired since)")
-        dst = f"/verif/seeded/{prop}-{k}"
-        mp = os.path.join(dst, "meta.json")
-        if os.path.exists(mp):
-            m = json.load(open(mp))
-            m["applies_to_current_tree"] = False
-            json.dump(m, open(mp, "w"), indent=1)
-        return 0
-    try:
-        for f in sorted(os.listdir("/verif/xpverif/checks")):
-            m = re.fullmatch(r"(c\d\d)\.py", f)
-            if not m:
-                continue
-            pid = m.group(1).upper()
-            e2 = dict(os.environ, VERIF_OUT="/tmp/adopt_out", VERIF_EVIDENCE_DIR="/tmp/adopt_out/ev")
-            c, o = sh(f"./check {pid}", "/verif", e2)
-            if c != 0:
-                lines = [l.strip()[:300] for l in o.splitlines() if l.startswith(("  FAIL", "ANALYSIS-ERROR"))][:3]
-                details[pid] = {"exit": c, "lines": lines}
-                if c == 1:
-                    caught.append(pid)
-    finally:
-        sh("git reset -q && git checkout -- .", "/repo")
-        shutil.rmtree("/tmp/adopt_out", ignore_errors=True)
-    dst = f"/verif/seeded/{prop}-{k}"
+    dst = f"/verif/seeded/{prop}-{name}"
     os.makedirs(dst, exist_ok=True)
     for f in ("patch.diff", "demo.py", "notes.md"):
         if os.path.exists(os.path.join(src, f)):
@@ -84,8 +54,8 @@ def main():
     meta = {"property": prop, "applies_to_current_tree": True, "origin": "independent sub-agent given only the property text and a scratch worktree",
             "needs_to_manifest": needs, "verified": ran, "caught_by": caught, "check_details": details}
     json.dump(meta, open(os.path.join(dst, "meta.json"), "w"), indent=1)
-    print("ADOPTED", dst, "caught_by", caught, json.dumps(details)[:600])
-    return 0
+    print("ADOPTED", dst)
+    return subprocess.call([PY, "/verif/tools/recheck_seeds.py", f"{prop}-{name}"])
 
 
 if __name__ == "__main__":
